@@ -5,7 +5,7 @@ CONSTANTS
   PfxOf <- MCPfxOf
   Vals = {1}
   FVals = {0, 2}
-  SVals = {0, 1, 2}
+  SVals = {0, 1}
   VecIdx = {0, 1}
   MaxPend = 2
   Mode = "field"
